@@ -10,9 +10,12 @@ TERMS = ["a", "foo", "b2", "x*", "?y", "2024-01-01T12:30", "T12:30:45", "xT12:30
          "foo\\ ", "b\\\t", "c\\\u3000", "20", "30:45", "05",
          # decomposed / compatibility characters and capitals: an entry point that normalises or folds its input
          # shifts every offset or changes the text
-         "cafe\u0301", "A\u030a", "\ufb01n", "x\u00b2", "\uff41", "Foo", "\u1e9e"]
+         "cafe\u0301", "A\u030a", "\ufb01n", "x\u00b2", "\uff41", "Foo", "\u1e9e",
+         # characters a lexer may be told to skip or to use as a placeholder: they are ordinary term characters
+         "\u200bbar", "\ufefffoo", "a\u200bb", "foo\x00bar", "\x00", "a\u00adb", "\u2060x"]
 PHRASES = ['"a"', '"a b"', '""', '"a \\" b"', '"l1\nl2"', '"AND"', '"/"', '"\\\\"', '"a:b"', "\"it's\"",
-           '"a\rb"', '"a\x0cb"', '"a\u2028b"', '"a\x85b"', '"a\x1cb"', '"e\u0301 \ufb01"', '"A B"']
+           '"a\rb"', '"a\x0cb"', '"a\u2028b"', '"a\x85b"', '"a\x1cb"', '"e\u0301 \ufb01"', '"A B"',
+           '"foo\x00bar"', '"\u200b"']
 REGEXES = ["/a/", "/a b/", "//", "/a\\/b/", '/"/', "/[a-z]+/", "/a\rb/", "/a\u2029b/"]
 NUMS = ["", "1", "2", "0.5", ".5", "2.0", "007", "10", "100", "0.0000001", "1.50", "0", "0.0", "00",
         "1234567890123456789012345678901", "1.0000000000000000000000000001"]
@@ -27,6 +30,26 @@ def huge_numerals():
     n = 1000001
     return ["a^" + "1" * n, "a~" + "9" * n, "a^1" + "0" * n, "a^." + "0" * n + "1", "a~0." + "0" * n + "10",
             "(a b)^" + "0" * n + "2", "f:a^" + "7" * n + "." + "0" * 10 + " b~1." + "0" * n + "5"]
+
+
+def deep_inputs():
+    """very deep and very wide queries: the LR driver is iterative, so they parse; too deep for the recursive
+    serialisers of this harness and for vm_compute: judged by the Python oracles only, with iterative walks"""
+    return ["(" * 260 + "a" + ")" * 260, "NOT " * 600 + "a", "+-" * 300 + "a", "f:(" * 400 + "a" + ")" * 400,
+            " ".join("w%d" % i for i in range(3000)), "(" * 2000 + "a OR b" + ")" * 2000, "a^2" + "^2" * 500]
+
+
+def flat_dump(tree):
+    """iterative structural dump of a tree of any depth: class, own attributes, layout and positions of every node
+    in pre-order"""
+    out, stack = [], [tree]
+    while stack:
+        n = stack.pop()
+        own = tuple((k, repr(v)) for k, v in sorted(vars(n).items())
+                    if not hasattr(v, "children") and not isinstance(v, (list, tuple)))
+        out.append((type(n).__name__, own, len(n.children)))
+        stack.extend(reversed(n.children))
+    return out
 
 
 def canon_numeral(txt):
@@ -177,7 +200,13 @@ MALFORMED = ["", " ", "\n\t", "(", ")", "(a", "a)", "((a)", "[a TO", "[a TO b", 
              "'", "a '", "\\", "a\\", "a \\\n", "a^.", "a~1.2.3", '"a"~1.5', '"a"~.', "a^1..2", "<", ">=", "< <a",
              "[a TO b TO c]", "[- TO b]", "[a TO -]", "a AND OR b", "(a) (", "a^2^3", "a~2~3", '"a"~2~3', '"a"^2~3',
              "f:(a", "f:[1 TO", "f:~2", "f:^2", "f:AND", "f:NOT", "f: NOT a", "f:TO", "TO TO TO", "[TO TO TO]",
-             "[a TO TO]", "a]", "}", "a '", " '", "　　", "a \x00 b", "\x00"]
+             "[a TO TO]", "a]", "}", "a '", " '", "　　", "a \x00 b", "\x00",
+             # non-ASCII digits glued to ~ and ^ are NOT part of the numeral ([0-9.]+): a word follows
+             "a~\u0663", "a^\uff12", '"a b"~\u0969', "a~1\u0663", "f:a^2\u0663 c", "a~\u00b2", "a^\u0661.\u0662",
+             # TO next to suffixes / fields / comparisons (reserved only inside a range)
+             "TO~2", "TO:a", "TO^3", "<TO", ">=TO", "TO TO", "[TO TO a]", "f:TO", "TO~", "a TO~2 b",
+             # several dots in a numeral
+             "a~1.0.5", "a^2.0.", "a~1..5", "a^2.50.1", '"a b"~2.0', '"a b"~9007199254740993']
 
 
 def impl_parse(s, fn):
